@@ -125,7 +125,7 @@ def run(vc):
               "with load / sgen / asymmetric load at the ext_grid bus (per-phase balance at the slack bus), an out-of-service ext_grid listed "
               "first, two ext_grids at one bus, sgens of type 'PV' / None",
         script="import sys\nfrom replaylib.threephase import main, main_more\n"
-               "for f in (main, main_more):\n    try:\n        f()\n    except SystemExit as e:\n        if e.code:\n            raise\n"))
+               "from replaylib import run_all\nrun_all(main, main_more)\n"))
 
 
 def classify(ob, model):
